@@ -116,3 +116,37 @@ PROP_INFO["C20"]["rule"] = PROP_INFO["C20"]["rule"].replace("all simulation fami
 # a slice of the quick tier runs the race-detector build on the same seeded schedules
 SUITES["C20"]["quick"] += [{"family": "world", "mode": "", "share": 2, "race": True}]
 PROP_INFO["C20"]["budget"] = {"quick": 90, "thorough": 1800}
+
+# ---- per-property component lists for the evidence files (what ran real code, what was a stub)
+_REAL = ["pkg/server (BgpServer, FSM, sender/receiver loops, watchers, managers)", "internal/pkg/table", "pkg/packet/bgp", "pkg/config/oc", "pkg/apiutil",
+         "eapache/channels", "Go sync/time/net semantics (scheduler, timers, select, map order under the seeded overlay)"]
+_STUB = ["BGP neighbours (simPeer with independent wire decoder)", "TCP (in-memory simNet: latency, fragmentation, stall, reset, refuse, black hole)",
+         "API clients (in-process calls, no gRPC transport)", "kernel socket options (fail harmlessly)"]
+PROP_INFO["C19"]["real"] = _REAL + ["pkg/server bmp.go / mrt.go / rpki.go (BMP client, MRT writer, RTR client)", "pkg/packet/bmp, pkg/packet/mrt, pkg/packet/rtr (serialisers, RTR parser)", "the real file system for MRT dump files"]
+PROP_INFO["C19"]["stub"] = _STUB + ["BMP stations (independent RFC 7854/9069 reader)", "MRT file reader (independent RFC 6396/8050 parser)", "RTR caches (independent RFC 6810 encoder, PDU corruption)"]
+PROP_INFO["C19"]["assumptions"] = ["go1.26.8 runtime patched by build-time overlay (seeded scheduler, fake-timer tie-break, select order, map seeds); GOMAXPROCS=1",
+                                   "sampling, not proof: a clean batch is evidence only",
+                                   "decides the daemon-emitted-records clause and stream handling only; the pure for-all-byte-strings codec clauses, BFD, Route Mirroring and disk faults are not covered"]
+PROP_INFO["C16"]["real"] = _REAL + ["pkg/server rpki.go (RTR client, ROA manager)", "internal/pkg/table roa.go", "pkg/packet/rtr"]
+PROP_INFO["C16"]["stub"] = _STUB + ["RTR caches (independent RFC 6810 encoder)"]
+
+# ---- restarting-speaker clause of C12 (world/restarting), zebra stream family (C19, C20)
+RESTART_RULE = (" Mode world/restarting: the daemon starts as a restarting speaker (every neighbour GR-enabled, local-restarting, one deferral time); sessions come up, "
+                "routes arrive, a drawn subset of peers sends End-of-RIB per GR family, one peer may come up late; then either the rest finishes, or nothing "
+                "happens until the deferral timers fire, or only part of it; checks fall clearly before and after each deadline: while held a peer's view must be "
+                "empty, after release it must equal the export of the Loc-RIB.")
+SUITES["C12"]["quick"] += [{"family": "world", "mode": "restarting", "share": 1}]
+SUITES["C12"]["thorough"] += [{"family": "world", "mode": "restarting", "share": 1}]
+PROP_INFO["C12"]["rule"] = PROP_INFO["C12"]["rule"] + RESTART_RULE
+ALL_FAMILIES += [("world", "restarting"), ("zebra", "")]
+SUITES["C19"]["quick"] += [{"family": "zebra", "mode": "", "share": 1}]
+SUITES["C19"]["thorough"] += [{"family": "zebra", "mode": "", "share": 1}]
+SUITES["C20"]["quick"] += [{"family": "zebra", "mode": "", "share": 1}]
+SUITES["C20"]["thorough"] += [{"family": "zebra", "mode": "", "share": 1}, {"family": "world", "mode": "restarting", "share": 1}]
+X = {"level": "exploration", "rule": RESTART_RULE, "probes": [], "budget": {"quick": 40, "thorough": 300}}
+PROP_INFO["X_RESTART"] = dict(X); SUITES["X_RESTART"] = {"quick": [{"family": "world", "mode": "restarting", "share": 1}], "thorough": [{"family": "world", "mode": "restarting", "share": 1}]}
+PROP_INFO["X_ZEBRA"] = dict(X); SUITES["X_ZEBRA"] = {"quick": [{"family": "zebra", "mode": "", "share": 1}], "thorough": [{"family": "zebra", "mode": "", "share": 1}]}
+
+# C02: a neighbour deleted while its routes are retained as stale (gr family) must leave nothing behind
+SUITES["C02"]["quick"] += [{"family": "gr", "mode": "", "share": 1}]
+SUITES["C02"]["thorough"] += [{"family": "gr", "mode": "", "share": 1}]
